@@ -48,6 +48,7 @@ func (c06) Plan(tier string, seed int64) []mon.Workload {
 		{Name: "extended-layout", N: ext},
 		{Name: "after-rejected", N: ext},
 		{Name: "deep-groups", N: int64(len(c06DeepKinds) * len(c06DeepLevels)), Exhaustive: true},
+		{Name: "expr-places", N: int64(c06NPlaces) * (int64(len(gen.BinOps)) + int64(len(gen.UnaryOps))), Exhaustive: true},
 	}
 }
 
@@ -74,6 +75,62 @@ func c06Pair(i int64) *gt.T {
 		return gt.Bin(o, gt.Unary(u, a), b)
 	}
 	return gt.Bin(o, a, gt.Unary(u, b))
+}
+
+// expr-places (exhaustive): `a OP b` for every binary operator (`in`
+// included) and `OP a` for every unary one, in every place of every statement
+// form that takes an expression - the three clauses of a classic for (alone
+// and together), if and elif conditions, the iterable of a for-in, both kinds
+// of assignment, positional and named call arguments, list and map elements,
+// index keys, a parenthesised statement.
+const c06NPlaces = 16
+
+func c06ExprPlace(i int64) []*gt.T {
+	place := int(i % c06NPlaces)
+	i /= c06NPlaces
+	e := func() *gt.T {
+		if int(i) < len(gen.BinOps) {
+			return gt.Bin(gen.BinOps[i], gt.Ident("x"), gt.Ident("y"))
+		}
+		return gt.Unary(gen.UnaryOps[int(i)-len(gen.BinOps)], gt.Ident("x"))
+	}
+	body := gt.Call("p", gt.Int(1))
+	switch place {
+	case 0:
+		return []*gt.T{gt.For(e(), nil, nil, body)}
+	case 1:
+		return []*gt.T{gt.For(nil, e(), nil, body)}
+	case 2:
+		return []*gt.T{gt.For(nil, nil, e(), body)}
+	case 3:
+		return []*gt.T{gt.For(e(), e(), e())}
+	case 4:
+		return []*gt.T{gt.If(e(), body)}
+	case 5:
+		t := gt.If(gt.Ident("c"), body)
+		t.Conds = append(t.Conds, e())
+		t.Blocks = append(t.Blocks, []*gt.T{gt.Call("p", gt.Int(2))})
+		return []*gt.T{t}
+	case 6:
+		return []*gt.T{gt.ForIn("v", e(), body)}
+	case 7:
+		return []*gt.T{gt.Assign("=", gt.Ident("z"), e())}
+	case 8:
+		return []*gt.T{gt.Assign("+=", gt.Ident("z"), e())}
+	case 9:
+		return []*gt.T{gt.Call("f", e(), gt.Ident("w"))}
+	case 10:
+		return []*gt.T{gt.Call("f", gt.Named("k", e()))}
+	case 11:
+		return []*gt.T{gt.Assign("=", gt.Ident("z"), gt.List(e(), gt.Int(1)))}
+	case 12:
+		return []*gt.T{gt.Assign("=", gt.Ident("z"), gt.Map(gt.Str("k"), e()))}
+	case 13:
+		return []*gt.T{gt.Assign("=", gt.Ident("z"), gt.Index("m", e()))}
+	case 14:
+		return []*gt.T{gt.Assign("=", gt.Index("m", e()), gt.Int(1))}
+	}
+	return []*gt.T{gt.Paren(e()), gt.For(gt.Assign("=", gt.Ident("q"), e()), nil, gt.Assign("=", gt.Ident("q"), e()))}
 }
 
 func mixedPrec(l []*gt.T) bool {
@@ -109,6 +166,9 @@ func (k c06) build(c *mon.Ctx, workload string, i int64) (stmts []*gt.T, layouts
 	switch workload {
 	case "deep-groups":
 		return gt.ParenthesizeStmts(c06Deep(i)), []*gt.Layout{nil, {R: c.Sub("lay"), Breaks: true, Extended: true}, {R: c.Sub("lay2"), Compact: true}}
+	case "expr-places":
+		stmts = c06ExprPlace(i)
+		layouts = []*gt.Layout{nil, {R: c.Sub("lay"), Breaks: true}, {R: c.Sub("lay2"), Compact: true}}
 	case "pairs":
 		stmts = []*gt.T{c06Pair(i)}
 		layouts = []*gt.Layout{nil, {R: c.Sub("lay"), Breaks: true}, {R: c.Sub("lay2"), Compact: true}}
